@@ -21,7 +21,7 @@ for d in sorted((x for x in os.listdir(os.path.join(VERIF, "seeded")) if os.path
     r = res.get(d, {})
     k = "%s/quick/seed0" % pid
     e = r.get(k) or (list(r.values())[0] if r else {})
-    st = "not evaluated" if not e else ("caught" + (" (no failing input found: broken obligation)" if e.get("nfi") else "") if e.get("caught") else "MISSED")
+    st = "obsolete (subsumed by a later fix)" if meta.get("obsolete") else "outside the quantifier (not evaluated)" if meta.get("outside") else "not evaluated" if not e else ("caught" + (" (no failing input found: broken obligation)" if e.get("nfi") else "") if e.get("caught") else "MISSED")
     summ = re.sub(r"\s+", " ", meta.get("summary", "")).replace("|", "/")[:170]
     why = re.sub(r"\s+", " ", str(e.get("why", ""))).replace("|", "/")[:110]
     rows.append("| %s | %s… | %s | %s… |" % (d, summ, st, why))
